@@ -204,6 +204,7 @@ fn epoch<F: TagFrame, B: Branches<F>>(
                 obs.tick(op.k);
                 obs.note(branch as u64 * 97 + k as u64);
                 let mut done_k = 0;
+                let lead_before = if branch == 0 { m.ca as i64 - m.cb as i64 } else { m.cb as i64 - m.ca as i64 };
                 for _ in 0..k {
                     if !m.can_pull(branch) {
                         break;
@@ -275,12 +276,13 @@ fn epoch<F: TagFrame, B: Branches<F>>(
                         }
                         m.last_sign = sign;
                     }
-                    if c < other && (if branch == 0 { m.ca } else { m.cb }) > other {
-                        obs.fault(F_LAGGARD_OVERTAKES);
-                    }
                 }
                 if done_k >= 3 {
                     obs.fault(F_STALL);
+                }
+                let lead_after = if branch == 0 { m.ca as i64 - m.cb as i64 } else { m.cb as i64 - m.ca as i64 };
+                if lead_before < 0 && lead_after > 0 {
+                    obs.fault(F_LAGGARD_OVERTAKES);
                 }
                 if op.k == O_BURST && done_k != k {
                     src.amend_last(Op::kab(O_BURST, branch as i64, done_k));
